@@ -641,3 +641,99 @@ func init() {
 }
 
 func stName(s int) string { return oracle.StName(s) }
+
+// ---------- C03 under recovery: the tolerated-failure rules on plans resumed after a crash ----------
+
+// c03Crash explores every crash point of a plan of the 'tol' shape (single-step scripts) and applies the
+// status-based C03 rules to the plan the recovering Workstream ends with.
+func c03Crash(c *Ctx, idx int) CaseResult {
+	res := CaseResult{Counters: map[string]int{}}
+	r := gen.Rand(c.Seed, "C03crash", idx)
+	g := gen.Base()
+	g.MaxBlocks, g.MaxSeqs, g.MaxActions = 3, 4, 2
+	g.MaxRetries, g.PTransient = 0, 0
+	g.PCont, g.PBCont = 0, 0
+	g.PBypass, g.PBBypass = 0, 0
+	g.PPre, g.PPost, g.PBPre, g.PBPost = 0.2, 0.2, 0.2, 0.2
+	g.PFailPre, g.PFailPost, g.PFailDeferred = 0, 0, 0
+	g.PDeferred, g.PBDeferred = 0.4, 0.5
+	g.PFailSeqAction = 0.45
+	g.SleepUS = [2]int{0, 1200}
+	g.TailP = 0
+	g.Tols = []int{-1, 0, 0, 1, 2}
+	g.Concs = []int{0, 1, 2, 3}
+	g.NoBlockDelays = true
+	ps := g.Plan(r, "p0")
+	var first any
+	cp := exploreCrashes(&ps, r, 1<<30, &res, func(sk *spec.PlanView, rec *crash.Recovery, t *oracle.Trace, second bool, k, j int) {
+		if rec == nil || !rec.Returned || rec.Final == nil {
+			return
+		}
+		fp := rec.Final
+		res.Counters["recoveries"]++
+		var vs []ev.Violation
+		add := func(rule, disc, f string, a ...any) { vs = append(vs, ev.V("C03", "recovered/"+rule, disc, f, a...)) }
+		firstFailed := -1
+		for bi := range ps.Blocks {
+			b := &ps.Blocks[bi]
+			ba := fmt.Sprintf("B%d", bi)
+			bst := fp.Status(ba)
+			F := 0
+			for si := range b.Seqs {
+				if fp.Status(fmt.Sprintf("%s.S%d", ba, si)) == spec.Failed {
+					F++
+				}
+			}
+			if firstFailed >= 0 {
+				for _, inv := range t.Invs {
+					if inv.Addr.Block == bi {
+						add("after-failed-block", "", "block %d is Failed, yet %s of block %d was invoked after the restart (crash point %d)", firstFailed, inv.Tag, bi, k)
+						break
+					}
+				}
+				if bst != spec.NotStarted {
+					add("after-failed-block", "status", "block %d is Failed, yet block %d ended %s (crash point %d)", firstFailed, bi, stName(bst), k)
+				}
+				continue
+			}
+			if bst == spec.NotStarted {
+				continue
+			}
+			T, C := b.Tol, b.EffConc()
+			if T >= 0 && F > T+C {
+				add("too-many-failures", "", "block %d: %d sequences failed, tolerance %d concurrency %d (crash point %d)", bi, F, T, C, k)
+			}
+			shouldFail := (T >= 0 && F > T) || anyGroupFailed(fp, ba)
+			switch {
+			case shouldFail && bst != spec.Failed:
+				add("block-status", "should-fail", "after recovery from crash point %d block %d has %d failed sequences (tolerance %d) but ended %s", k, bi, F, T, stName(bst))
+			case !shouldFail && bst != spec.Completed:
+				add("block-status", "should-complete", "after recovery from crash point %d block %d has %d failed sequences within tolerance %d and no failed check but ended %s", k, bi, F, T, stName(bst))
+			}
+			if bst == spec.Failed {
+				firstFailed = bi
+			}
+		}
+		if firstFailed >= 0 && fp.Status("P") != spec.Failed {
+			add("plan-status", "", "block %d is Failed but the recovered plan ended %s", firstFailed, stName(fp.Status("P")))
+		}
+		if len(vs) > 0 && first == nil {
+			first = map[string]any{"k": k, "durable_state": describeSk(sk), "final": fp, "recovery_events": rec.Events}
+		}
+		res.Viols = append(res.Viols, vs...)
+	})
+	if cp != nil {
+		res.Nontriv = hashStr(fmt.Sprint("crash", ps))
+		res.ISig = res.Nontriv
+		if cp.Ref.Status("P") == spec.Failed {
+			res.Counters["crash_plans_failed"]++
+		}
+		if idx%100 == 9 {
+			res.Sample = map[string]any{"mode": "every crash point of a tolerated-failure plan", "plan": ps, "writes": cp.NW}
+		}
+	}
+	if len(res.Viols) > 0 {
+		res.Witness = map[string]any{"plan": ps, "first": first}
+	}
+	return res
+}
